@@ -21,7 +21,7 @@ func checkC07(c *Ctx) {
 	c.Rule("C07.R1", "WKB decoder on malformed input, evaluated on the typed-stream model: every truncation of the model messages, counts of 2^28 with no payload or with two genuine chunks of payload, unknown type codes, invalid flags and members of the wrong kind give an error; nothing panics and no make is sized by an announced count above the chunk limit")
 	c.Rule("C07.R2", "GeoJSON decoder on malformed documents (wrong nesting, positions of 0/1/3 numbers, non-numbers, empty arrays, unknown types, nil): an error, never a panic — whatever mechanism (recover or error values) produces it")
 	c.Rule("C07.R3", "in decoder functions a value returned together with an error is not asserted, dereferenced, indexed, method-called or returned with a nil error before that error is tested")
-	c.Rule("C07.R4", "premise of the re-encode clause: WKB writer and reader format trees and code tables agree (a count written is the number of members written, members go through Write/Read), so a value the decoder returned re-encodes to a message the decoder accepts")
+	c.Rule("C07.R4", "premise of the re-encode clause, by the typed-stream model of C05: what the WKB writer produces for the model geometries is what the reader consumes (counts = members that follow, members complete messages of their own, each in its announced byte order), so a value the decoder returned re-encodes to a message the decoder accepts")
 	c07errflow(c)
 	// R4 (and the WKB half of R1/R2): the stream model of C05 — layouts agree, and every malformed
 	// message gives an error without a panic or an allocation sized by an announced count
